@@ -184,6 +184,9 @@ func TestC06(t *testing.T) {
 		"every ConsDir assignment x arrival {external interface of each link type, sibling link with the hop's ingress owned by the " +
 		"sibling for each link type, internal link on the first hop} x egress {own interface of each link type, sibling-owned interface " +
 		"of each link type, 0, unknown} x {SCION, EPIC} x sibling links {detached, connected} x keys; all validated hop fields carry valid MACs; " +
+		"every packet is judged on fresh processors AND directly after each kind of predecessor packet on the same processor (rtr.Dirt: " +
+		"cross-over forwarded / rejected after the switch / EPIC / extension headers / to a sibling, peering hops, in-segment transit, from " +
+		"sibling, from host, delivery, one-hop path: all histories of length 1 over that alphabet); " +
 		"distinct key = scenario+dirs+ingress+egress+type+key; non-trivial = all"
 	var nHarness, histories atomic.Int64
 	harness := func(f string, a ...any) {
@@ -430,6 +433,7 @@ func TestC06(t *testing.T) {
 		"exact SCMP code: InvalidPath(48)+pointer at the hop field for a same-segment pair, InvalidSegmentChange(53)+pointer at an info field of the change for a segment change, UnknownHopField cons egress(50)/cons ingress(49) by construction direction + pointer at the hop field for an unknown egress; for from-inside rejections any of these codes",
 		"peering hops are judged with the same-segment list (they are not a segment change in the sense of the statement: child-peer / peer-child are listed there)",
 		"hair-pin (ingress interface == egress interface) is not enumerated",
+		"the verdict for a packet must not depend on what the same packet processor handled before (a processor is a long-lived per-goroutine object): a difference between fresh processors and any length-1 history is a violation (result-depends-on-processor-history:*), and the differing result is judged by the same allow-lists (finding keys with suffix /after-other-packet)",
 	}
 	r.Extra["scenarios"] = len(c06Scenarios())
 	r.Extra["packet_x_history_evaluations"] = histories.Load()
